@@ -1,23 +1,118 @@
-import Labella.Proofs.ChainOpt
+import Labella.Proofs.LayoutSep
+import Labella.Model.LayoutSpec
 /-! # C01 — items sharing a layer never overlap and keep the order of their targets
 
-Property theorems only; helper lemmas live in `Labella/Proofs`. -/
+Property theorems only; helper lemmas live in `Labella/Proofs`.  All statements are for every layer
+(any number of items, any widths and targets, ties included), every option set — bounds present, absent
+or infeasible alike, because the walls are just two more variables of the chain. -/
 namespace Labella.C01
-open Labella Labella.Chain
+open Labella Labella.Chain Labella.Layout
 
-/-- The merge loop of the solver, run with one unit of fuel per block, ends in a state in which no
-constraint between neighbouring blocks is violated by more than `eps` — for every chain instance,
-every tolerance, bounds present or not (walls are just two more chain variables). -/
-theorem chain_satisfy_feasible (eps : ℚ) (bs : List Block) :
-    ∀ s ∈ slacks (satisfy eps bs.length bs), -eps ≤ s :=
-  satisfy_feasible eps bs.length bs (by omega)
+/-! ### constants the statements depend on (re-proved whenever `Gen/Constants.lean` is regenerated) -/
 
-/-- the loop never reorders or loses an item: the blocks always concatenate to the input chain -/
-theorem chain_satisfy_keeps_order (eps : ℚ) (fuel : ℕ) (bs : List Block) :
-    (satisfy eps fuel bs).flatten = bs.flatten :=
-  satisfy_flatten eps fuel bs
+/-- the solver's merge threshold `ZERO_UPPERBOUND` is non-positive (`eps = −ZERO_UPPERBOUND ≥ 0`) -/
+theorem eps_nonneg : 0 ≤ Layout.eps := eps_nonneg'
 
-example : ∃ bs : List Block, bs.length = 3 ∧ (satisfy (0:ℚ) 3 bs).length = 2 :=
-  ⟨[[⟨1, 0⟩], [⟨1, -1⟩], [⟨1, 5⟩]], by decide +kernel⟩
+/-- the wall weight is positive -/
+theorem wallWeight_pos : 0 < Gen.wallWeight := wallWeight_pos'
+
+/-- gaps are `(w₁ + w₂) / 2 + spacing` -/
+theorem halfDivisor_eq : Gen.halfDivisor = 2 := halfDivisor_eq'
+
+/-! ### the chain solver -/
+
+theorem solve_length (eps : ℚ) (vars : List Item) (gaps : List ℚ) (hlen : gaps.length + 1 = vars.length) :
+    (solve eps vars gaps).length = vars.length :=
+  solve_length' eps vars gaps hlen
+
+/-- Every gap is kept up to `eps`, for every chain instance with positive weights — whether or not the
+items fit between the walls.  (`0 ≤ eps` is necessary: see `solve_feasible_needs_eps_nonneg`.) -/
+theorem solve_feasible (eps : ℚ) (heps : 0 ≤ eps) (vars : List Item) (gaps : List ℚ)
+    (hw : ∀ v ∈ vars, 0 < v.w) :
+    SepBy eps gaps (solve eps vars gaps) :=
+  solve_feasible' eps heps vars gaps hw
+
+/-- with a negative tolerance the statement is false (two pooled items sit exactly `gap` apart) -/
+theorem solve_feasible_needs_eps_nonneg (eps : ℚ) (h : eps < 0) :
+    ¬ SepBy eps [0] (solve eps [⟨1, 0⟩, ⟨1, 0⟩] [0]) := by
+  have h1 : (0 : ℚ) < -eps := by linarith
+  have : solve eps [⟨1, 0⟩, ⟨1, 0⟩] [0] = [0, 0] := by
+    simp [solve, prefixSums, satisfy, slacks, argmin, mergeAt, expand, Block.mean, Block.sumW,
+      Block.sumWT, h1]
+  rw [this]
+  simp only [SepBy]
+  intro hc
+  linarith [hc.1]
+
+/-! ### rounding -/
+
+/-- Python's `round` moves a position by at most one half -/
+theorem round_close (x : ℚ) : |((roundHalfEven x : Int) : ℚ) - x| ≤ 1 / 2 :=
+  round_close' x
+
+/-! ### removeOverlap -/
+
+/-- the list is handed back sorted by target (stable sort) … -/
+theorem sort_sorted (items : List (LItem × Nat)) :
+    (sortItems items).Pairwise (fun a b => a.1.target ≤ b.1.target) :=
+  sort_sorted' items
+
+/-- … as a permutation of the input: no item is lost or duplicated -/
+theorem sort_perm (items : List (LItem × Nat)) : (sortItems items).Perm items :=
+  sort_perm' items
+
+theorem solveSorted_length (o : ROpts) (its : List LItem) (h : its ≠ []) :
+    (solveSorted o its).length = its.length :=
+  solveSorted_length' o its h
+
+/-- C01 on the solver's own (unrounded) positions: target order kept, every neighbour gap kept up to eps -/
+theorem sep_unrounded (o : ROpts) (its : List LItem)
+    (hs : its.Pairwise (fun a b => a.target ≤ b.target)) :
+    sepAdjB o Layout.eps (its.zip (solveSorted o its)) = true :=
+  sep_unrounded' o its hs
+
+/-- C01 on the reported (rounded) positions: at most 1 unit is lost to rounding -/
+theorem sep_rounded (o : ROpts) (its : List LItem)
+    (hs : its.Pairwise (fun a b => a.target ≤ b.target)) :
+    sepAdjB o (1 + Layout.eps)
+      (its.zip ((solveSorted o its).map (fun x => ((roundHalfEven x : Int) : ℚ)))) = true :=
+  sep_rounded' o its hs
+
+/-- **C01 (neighbours)** stated of `removeOverlap` itself on an arbitrary, unsorted layer: the reported order
+is the stable target order, reported positions are the rounded solver positions, and neighbouring centres
+are at least `(w₁+w₂)/2 + spacing − 1 − eps` apart (spacing = line spacing iff both are stubs). -/
+theorem removeOverlap_sep (o : ROpts) (items : List LItem) :
+    let sorted := sortItems items.zipIdx
+    let out := removeOverlap o items
+    out.order = sorted.map (·.2) ∧ out.pos = out.xs.map roundHalfEven ∧
+    sepAdjB o (1 + Layout.eps) ((sorted.map (·.1)).zip (out.pos.map (fun (p : Int) => (p : ℚ)))) = true := by
+  intro sorted out
+  exact ⟨rfl, rfl, removeOverlap_sepAdj o items⟩
+
+/-- **C01 (any two items)**: if neighbours keep their gaps up to `tol`, items `i < j` keep the gap the pair
+itself requires up to `(j − i)·tol`, provided no label is so narrow that two stubs around it could be closer
+than the line spacing (`lineSpacing ≤ 2·nodeSpacing + width`; true for the defaults 2 ≤ 2·3 + w).
+Without the hypothesis the literal statement fails: `any_pair_counterexample` (known finding F2). -/
+theorem any_pair (o : ROpts) (tol : ℚ) (htol : 0 ≤ tol) (L : List (LItem × ℚ))
+    (hadj : sepAdjB o tol L = true)
+    (hw : ∀ p ∈ L, 0 ≤ p.1.width) (hns : 0 ≤ o.nodeSpacing) (hls : 0 ≤ o.lineSpacing)
+    (hF2 : ∀ p ∈ L, p.1.stub = false → o.lineSpacing ≤ 2 * o.nodeSpacing + p.1.width) :
+    sepAllB o (tol * L.length) L = true :=
+  any_pair' o tol htol hns hls L _ (le_refl _) hadj hw hF2
+
+/-- known finding F2: stub, narrow label, stub with no label spacing — neighbours keep their gaps, but the two
+stubs end up closer than their own (line-spacing) gap even allowing 1 unit for rounding -/
+theorem any_pair_counterexample :
+    let o : ROpts := { minPos := none, maxPos := none, nodeSpacing := 0, lineSpacing := 2 }
+    let its : List LItem := [⟨10, 1, true⟩, ⟨10, 1/2, false⟩, ⟨10, 1, true⟩]
+    let L := its.zip (solveSorted o its)
+    sepAdjB o Layout.eps L = true ∧ sepAllB o 1 L = false ∧ f2Shape o L = true := by
+  decide +kernel
+
+-- non-vacuity: a layer with a tie, a stub pair and both walls active
+example :
+    (solveSorted ⟨some 0, some 30, 3, 2⟩ [⟨5, 4, false⟩, ⟨5, 4, false⟩, ⟨9, 1, true⟩, ⟨10, 1, true⟩]).map roundHalfEven
+      = [2, 9, 14, 17] := by
+  decide +kernel
 
 end Labella.C01
